@@ -353,6 +353,8 @@ pub struct BranchLog {
     pub decisions: u64,
     pub nones: u64,
     pub violations: Vec<BranchViolation>,
+    /// observed (value selector, variable index, domain values, decision) for the exact correspondence
+    pub valsel_records: Vec<String>,
 }
 
 /// Type-erased brancher that forwards *every* callback (including `synchronise`, which needs the
@@ -364,6 +366,8 @@ pub struct BoxB {
     pub vars: Vec<DomainId>,
     pub log: Rc<RefCell<BranchLog>>,
     pub check: bool,
+    /// index of the value selector when the brancher is a plain independent brancher
+    pub valsel: Option<usize>,
 }
 
 impl std::fmt::Debug for BoxB {
@@ -388,6 +392,33 @@ impl Brancher for BoxB {
                     }
                     if !self.vars.contains(&p.get_domain()) {
                         log.violations.push(BranchViolation { what: format!("decision {} is not over a brancher variable", p) });
+                    }
+                    if let Some(vi) = self.valsel {
+                        if log.valsel_records.len() < 12 {
+                            let d = p.get_domain();
+                            let (lb, ub) = (context.lower_bound(d), context.upper_bound(d));
+                            if (ub as i64 - lb as i64) < 200 {
+                                let vals: Vec<String> =
+                                    (lb..=ub).filter(|v| context.contains(d, *v)).map(|v| v.to_string()).collect();
+                                let (k, v) = match p {
+                                    Predicate::LowerBound { lower_bound, .. } => ("ge", lower_bound),
+                                    Predicate::UpperBound { upper_bound, .. } => ("le", upper_bound),
+                                    Predicate::NotEqual { not_equal_constant, .. } => ("ne", not_equal_constant),
+                                    Predicate::Equal { equality_constant, .. } => ("eq", equality_constant),
+                                };
+                                let x = d.id as usize - 1;
+                                log.valsel_records.push(format!(
+                                    "valsel {} {} {} {} {} {} {}",
+                                    VALSEL_NAMES[vi],
+                                    x,
+                                    vals.len(),
+                                    vals.join(" "),
+                                    k,
+                                    x,
+                                    v
+                                ));
+                            }
+                        }
                     }
                 }
                 None => {
@@ -463,7 +494,11 @@ pub fn make_brancher(spec: &BrancherSpec, solver: &Solver, vars: &[DomainId]) ->
         BrancherSpec::Autonomous(a, b) => Box::new(AutonomousSearch::new(make_indep(*a, *b, vars))),
         BrancherSpec::Simple => Box::new(SimpleBrancher { vars: vars.to_vec() }),
     };
-    BoxB { inner, vars: vars.to_vec(), log: Rc::new(RefCell::new(BranchLog::default())), check: true }
+    let valsel = match spec {
+        BrancherSpec::Indep(_, b) => Some(*b),
+        _ => None,
+    };
+    BoxB { inner, vars: vars.to_vec(), log: Rc::new(RefCell::new(BranchLog::default())), check: true, valsel }
 }
 
 // ---------------------------------------------------------------------------------------------
